@@ -14,11 +14,10 @@ Open Scope string_scope.
 Definition stored (ft : ftable) (v : value) : Prop :=
   match v with
   | VLit l d g =>
-      mk_literal l d g = VLit l d g /\
-      match g, d with
-      | None, Some dd => parse_xsd ft l dd = CKeep
-      | None, None => False
-      | Some _, _ => True
+      match g with
+      | Some (String _ _) => exists dd, d = Some dd /\ qn_uri dd = qn_uri (prov_qn "InternationalizedString")
+      | Some EmptyString => True
+      | None => match d with Some dd => parse_xsd ft l dd = CKeep | None => False end
       end
   | _ => True
   end.
@@ -59,16 +58,20 @@ Proof.
     pose proof (resolve_o_qn c m q I) as R. destruct (resolve_o c m (NQn q)) as [m' [q'|]| |]; try exact R.
     destruct R as [U I']. split; [|exact I']. exists q'. split; [reflexivity | exact U].
   - (* literal *)
-    cbn [stored] in S. destruct S as [MK S].
-    destruct g as [lang|].
-    + (* language-tagged *)
-      unfold keep_literal. rewrite MK.
-      destruct d as [dd|].
-      * pose proof (resolve_o_qn c m dd I) as R. destruct (resolve_o c m (NQn dd)) as [m' [d'|]| |]; try exact R; try (exfalso; exact R).
-        destruct R as [U I']. split; [|exact I']. exists d'. split; [reflexivity | exact U].
-      * split; [reflexivity | exact I].
+    cbn [stored] in S.
+    destruct g as [[|gc gs]|].
+    + (* empty language tag: the datatype is kept *)
+      unfold keep_literal. cbn [mk_literal].
+      destruct d as [dd|]; [|split; [reflexivity | exact I]].
+      pose proof (resolve_o_qn c m dd I) as R. destruct (resolve_o c m (NQn dd)) as [m' [d'|]| |]; try exact R; try (exfalso; exact R).
+      destruct R as [U I']. split; [|exact I']. exists d'. split; [reflexivity | exact U].
+    + (* language-tagged: the constructor forces prov:InternationalizedString *)
+      destruct S as [dd [-> UD]]. unfold keep_literal. cbn [mk_literal].
+      pose proof (resolve_o_qn c m (prov_qn "InternationalizedString") I) as R.
+      destruct (resolve_o c m (NQn (prov_qn "InternationalizedString"))) as [m' [d'|]| |]; try exact R; try (exfalso; exact R).
+      destruct R as [U I']. split; [|exact I']. exists d'. split; [reflexivity | congruence].
     + destruct d as [dd|]; [|contradiction].
-      rewrite S. unfold keep_literal. rewrite MK.
+      rewrite S. unfold keep_literal. cbn [mk_literal].
       pose proof (resolve_o_qn c m dd I) as R. destruct (resolve_o c m (NQn dd)) as [m' [d'|]| |]; try exact R; try (exfalso; exact R).
       destruct R as [U I']. split; [|exact I']. exists d'. split; [reflexivity | exact U].
 Qed.
@@ -81,8 +84,9 @@ Example stored_examples :
   stored [] (VLit "hi" (Some (prov_qn "InternationalizedString")) (Some "en")) /\
   ~ stored [] (VLit "5" (Some (xsd_qn "int")) None).
 Proof.
-  repeat split; try (vm_compute; reflexivity).
-  intros [_ H]. vm_compute in H. discriminate.
+  split; [vm_compute; reflexivity|]. split; [vm_compute; reflexivity|].
+  split; [exists (prov_qn "InternationalizedString"); split; reflexivity|].
+  intros H. vm_compute in H. discriminate.
 Qed.
 
 (* the formal-attribute paths: a stored reference is a qualified name, a stored time a datetime *)
